@@ -82,6 +82,7 @@ type simCfg struct {
 	// Model, if set, is asked first.
 	Keep          map[string]bool // events whose pointer arguments are not havocked
 	UniqueMake    bool
+	NormSubslice  bool
 	NoLoopSamples bool // only function exits are sampled
 	Model         func(c *simClient, x *Exec, st *State, fr *Frame, site ssa.CallInstruction, name string, callee *ssa.Function, fnTerm *Term, args []*Term) (bool, []CallOut)
 	OnStoreHook   func(c *simClient, x *Exec, st *State, fr *Frame, pos token.Pos, addr, val, old *Term)
@@ -216,6 +217,7 @@ func runSim(p *Program, fn *ssa.Function, cfg *simCfg, args []*Term) (*simClient
 	c := &simClient{p: p, cfg: cfg}
 	x := newExec(p, c)
 	x.UniqueMake = cfg.UniqueMake
+	x.NormSubslice = cfg.NormSubslice
 	st := newState(&simGhost{flags: map[string]*Term{}})
 	if args == nil {
 		for _, pa := range fn.Params {
